@@ -188,6 +188,10 @@ def units(tier):
             continue
         a = ("prog", "exp", v, ("uid",), ("if", ("cmp", ("id", "f"), "in", ("tup", (("lit", v), ("lit", 1)))), ("ret", ((v, "1"), ("B", "1"))), ("else", ("ret", (("Z", "1"),)))))
         out.append(("case", "literal", a, [{"uid": i, "f": f} for i in range(2) for f in (v, 1, v + "x")]))
+    for gs in ((("A", "0"), ("B", "1")), (("A", "1"), ("B", "0.0"), ("C", "2")), (("A", "0"), ("B", "0"), ("C", "0.5"))):
+        a = ("prog", "exp", None, ("uid",), ("if", ("cmp", ("id", "f"), "==", ("lit", 1)), ("ret", gs), ("else", ("ret", gs[::-1]))))
+        out.append(("case", "zero-weight", a, [{"uid": i, "f": f} for i in range(6) for f in (1, 0)]))
+        out.append(("case", "zero-weight", ("prog", "exp", "s", None, ("ret", gs)), [{} for _ in range(3)]))
     out += [("ws", sep) for sep in ("\t", "\n", "\r\n", "\r", "\x0c", "\x0b", " \t ", "\n\n", " \r\n\t", "\x0c\n", " \x0b ", "\r\r\n", "  ")]
     B = eb.all_bases()
     for nme in (eb.SMALL if tier == "quick" else sorted(B)):
